@@ -265,6 +265,7 @@ structure InfoState where
 
 /-- `hydrateSourceCodeInfo`: route one location -/
 def routeLoc (fi : Nat) (f : FileD) (st : InfoState) (l : Loc) : InfoState :=
+  if l.path = [] then st else      -- the whole-file location designates no declaration (fix F12)
   let st1 :=
     if l.path.length = 1 then
       (if l.path = [12] then { st with syntaxInfo := some l.tag }
@@ -300,15 +301,11 @@ def c08Model (w : World) : C08Obs :=
             | some st => optTag ((st.infos.find? (·.1 == r)).map (·.2))
             | none => -1)).mergeSort pairLe⟩
 
-/-- domain: location paths pairwise distinct per file, the whole-file location (if any) before
-    the syntax location, declaration indices in range (generated worlds satisfy it by construction) -/
+/-- domain: location paths pairwise distinct per file (generated worlds satisfy it by construction) -/
 def domC08 (w : World) : Bool :=
   w.files.all fun f =>
     let ps := f.locs.map (·.path)
-    ps.eraseDups.length == ps.length &&
-    (match ps.findIdx? (· == []), ps.findIdx? (· == [12]) with
-     | some a, some b => a < b
-     | _, _ => true)
+    ps.eraseDups.length == ps.length
 
 def judgeC08 (w : World) (o : C08Obs) : Option String :=
   if o.failed then some "building failed" else
